@@ -18,6 +18,7 @@
 (*   join       main   (exit code logged)               -> MJoin           *)
 (*   get        writer queue.get() (item logged)        -> WGet            *)
 (*   exit       writer (exit code logged)               -> state check     *)
+(*   oomkill    env    the writer process is SIGKILLed  -> WKill           *)
 (*   final      harness: outcome, what the path opens as, directory        *)
 (*              state                                   -> terminal state  *)
 (* Not observable without hooks in the library, hence silent steps that    *)
@@ -41,7 +42,8 @@ SetOf(s) == { s[i] : i \in DOMAIN s }
 TInit == /\ Init
          /\ tid \in 1..Len(Traces) /\ li = 0
          /\ cfg = [L |-> M.L, CS |-> M.CS, W |-> M.W, Pre |-> M.Pre, Ow |-> M.Ow,
-                   FaultChunk |-> M.FaultChunk, EmptyCentre |-> M.EmptyCentre, Where |-> M.Where]
+                   FaultChunk |-> M.FaultChunk, EmptyCentre |-> M.EmptyCentre, Where |-> M.Where,
+                   Kill |-> M.Kill]
          /\ TLCSet(tid, 0) /\ TLCSet(1000000 + tid, FALSE)
 
 More == li < Len(T)
@@ -58,8 +60,9 @@ TMapRet == Consume /\ Ev.ev = "mapret" /\ MMapDone /\ Ev.failed = werr
 TPutEOQ == Consume /\ Ev.ev = "put" /\ Ev.cls = "EndOfQueue" /\ MPutEOQ
 TTerminate == /\ Consume /\ Ev.ev = "terminate" /\ MFault
               /\ Ev.alive = (wpc # "exited")
+TKill == Consume /\ Ev.ev = "oomkill" /\ WKill
 TJoin == /\ Consume /\ Ev.ev = "join" /\ MJoin
-         /\ Ev.code = (IF wexit = 15 THEN 0 - 15 ELSE wexit)
+         /\ Ev.code = (IF wexit \in {9, 15} THEN 0 - wexit ELSE wexit)
 TGet == /\ Consume /\ Ev.ev = "get" /\ q # <<>>
         /\ IF Ev.cls = "EndOfQueue" THEN Head(q).k = "EOQ"
            ELSE Head(q).k = "part" /\ Head(q).recs = SetOf(Ev.recs)
@@ -73,12 +76,12 @@ TFinal == /\ Consume /\ Ev.ev = "final" /\ Done
 (* first step, and the pool used by load_patches afterwards                *)
 TSkip == Consume /\ Ev.ev \in {"start", "imap"} /\ UNCHANGED vars
 
-TSilentWInit == Silent /\ Ev.ev \in {"get", "exit", "terminate"} /\ WInit
+TSilentWInit == Silent /\ Ev.ev \in {"get", "exit", "terminate", "oomkill"} /\ WInit
 TSilentLoad == Silent /\ Ev.ev = "final" /\ Load
 TSilentSeq == Silent /\ Ev.ev = "final" /\ (SeqInit \/ SeqChunk \/ SeqFault \/ SeqFinal)
 
 TNext == \/ TSpawn \/ TMapCall \/ TWork \/ TWorkFail \/ TMapRet \/ TPutEOQ \/ TTerminate \/ TJoin
-         \/ TGet \/ TExit \/ TFinal \/ TSkip
+         \/ TGet \/ TExit \/ TKill \/ TFinal \/ TSkip
          \/ TSilentWInit \/ TSilentLoad \/ TSilentSeq
 
 TSpec == TInit /\ [][TNext]_tvars
